@@ -428,4 +428,82 @@ theorem Inv_compactStart (R : ViewRel) (s : PState) (F : KFs) (h : Inv R s F) (w
       kinsIn := hins }
   vlogNZ := h.vlogNZ
 
+/-! ### fields the invariant does not look at -/
+
+/-- `s2` agrees with `s1` on everything `Inv` mentions (it may differ in the writer's program and
+    in the durability bookkeeping: `curDirty curDurEntry mdirty tsetD kdir pendU wq …`) -/
+structure CoreEq (s1 s2 : PState) : Prop where
+  imm : s2.imm = s1.imm
+  curOpen : s2.curOpen = s1.curOpen
+  curHdr : s2.curHdr = s1.curHdr
+  cur : s2.cur = s1.cur
+  nextMem : s2.nextMem = s1.nextMem
+  mtxns : s2.mtxns = s1.mtxns
+  inflight : s2.inflight = s1.inflight
+  pending : s2.pending = s1.pending
+  fpc : s2.fpc = s1.fpc
+  fsst : s2.fsst = s1.fsst
+  nextSst : s2.nextSst = s1.nextSst
+  tset : s2.tset = s1.tset
+  tcont : s2.tcont = s1.tcont
+  kins : s2.kins = s1.kins
+  kout : s2.kout = s1.kout
+  commits : s2.commits = s1.commits
+  done : s2.done = s1.done
+  acked : s2.acked = s1.acked
+
+theorem Inv_of_eq (R : ViewRel) (s1 s2 : PState) (F : KFs) (h : Inv R s1 F) (e : CoreEq s1 s2) : Inv R s2 F := by
+  obtain ⟨e1, e2, e3, e4, e5, e6, e7, e8, e9, e10, e11, e12, e13, e14, e15, e16, e17, e18⟩ := e
+  cases s1; cases s2
+  simp only at e1 e2 e3 e4 e5 e6 e7 e8 e9 e10 e11 e12 e13 e14 e15 e16 e17 e18
+  subst e1 e2 e3 e4 e5 e6 e7 e8 e9 e10 e11 e12 e13 e14 e15 e16 e17 e18
+  exact ⟨h.logic, h.manifest, h.mem, h.sst, h.vlogNZ⟩
+
+/-! ### msync of a compaction output: stage 2 → 3 -/
+
+def syncStage (id : Nat) (o : KOut) : KOut := if o.id == id && o.stage == 2 then { o with stage := 3 } else o
+
+@[simp] theorem syncStage_id (id : Nat) (o : KOut) : (syncStage id o).id = o.id := by
+  unfold syncStage; split <;> rfl
+@[simp] theorem syncStage_ents (id : Nat) (o : KOut) : (syncStage id o).ents = o.ents := by
+  unfold syncStage; split <;> rfl
+theorem syncStage_stage (id : Nat) (o : KOut) :
+    ((syncStage id o).stage = 1 → o.stage = 1) ∧ (2 ≤ (syncStage id o).stage → 2 ≤ o.stage) := by
+  unfold syncStage
+  split
+  · rename_i h
+    have : o.stage = 2 := by simp at h; exact h.2
+    constructor
+    · intro h1; simp at h1
+    · intro _; omega
+  · exact ⟨fun h1 => h1, fun h1 => h1⟩
+
+theorem Inv_ksync (R : ViewRel) (s : PState) (F : KFs) (h : Inv R s F) (id : Nat) :
+    Inv R { s with kout := s.kout.map (syncStage id) } F where
+  logic := h.logic
+  manifest := h.manifest
+  mem := h.mem
+  sst := by
+    have hs := h.sst
+    have hids : (s.kout.map (syncStage id)).map (·.id) = s.kout.map (·.id) := by
+      simp [List.map_map, Function.comp_def]
+    have hents : (s.kout.map (syncStage id)).map (·.ents) = s.kout.map (·.ents) := by
+      simp [List.map_map, Function.comp_def]
+    exact { hs with
+      koutLt := by
+        intro o ho
+        obtain ⟨o2, ho2, he⟩ := List.mem_map.mp ho
+        subst he; simp only [syncStage_id]; exact hs.koutLt o2 ho2
+      koutNodup := by rw [hids]; exact hs.koutNodup
+      koutFiles := by
+        intro o ho
+        obtain ⟨o2, ho2, he⟩ := List.mem_map.mp ho
+        subst he
+        have hst := syncStage_stage id o2
+        constructor
+        · intro h1; simp only [syncStage_id]; exact (hs.koutFiles o2 ho2).1 (hst.1 h1)
+        · intro h1; simp only [syncStage_id, syncStage_ents]; exact (hs.koutFiles o2 ho2).2 (hst.2 h1)
+      kview := by intro hk; rw [hents]; exact hs.kview hk }
+  vlogNZ := h.vlogNZ
+
 end Badger
